@@ -20,8 +20,9 @@ def tr(j, ind=2):
     if isinstance(j, list): return "J.arr [" + ", ".join(tr(x) for x in j) + "]"
     if isinstance(j, dict): return "J.obj [" + ", ".join("(" + lean_str(k) + ", " + tr(v) + ")" for k, v in sorted(j.items())) + "]"
     raise TypeError(j)
-doc = json.load(open("/repo/geff-schema.json"))
-print("import Sp.J\nnamespace Gen\nopen Sp\n")
-print("def published : J :=\n  " + tr(doc))
-print("def exported : J :=\n  " + tr(doc))
-print("\ntheorem published_eq_exported : published = exported := rfl\nend Gen")
+if __name__ == '__main__':
+    doc = json.load(open("/repo/geff-schema.json"))
+    print("import Sp.J\nnamespace Gen\nopen Sp\n")
+    print("def published : J :=\n  " + tr(doc))
+    print("def exported : J :=\n  " + tr(doc))
+    print("\ntheorem published_eq_exported : published = exported := rfl\nend Gen")
